@@ -14,7 +14,10 @@ CLAIM = ('Proved in Coq END TO END for the model, Numbers naming without and wit
          'grammar was extended by such names (48 failing twin runs on the unchanged code), the defect repaired (1309209: the '
          'number filter wants r + digits only, latest_timestamp_file lists with the time-stamp filter) and the member tests of '
          'the theorems are now characterised as exactly the documented patterns (C14_num_member_pattern, '
-         'C14_numd_member_pattern, C14_ts_member_pattern, C14_tsd_member_pattern; a number-named file is foreign to a time-stamp '
+         'C14_numd_member_pattern, C14_ts_member_pattern, C14_tsd_member_pattern; for the time-stamp namings the pattern was still '
+         "\"what chrono's lenient parser reads as a time stamp\" until a second reviewer saw a_r+2024-01-05_03-04-05.log and "
+         'a_r2024-1-5_3-4-5.log removed by the cleanup - repaired (b8c3c12), the pattern is now the canonical text of a time stamp, '
+         'canonical_ts; a number-named file is foreign to a time-stamp '
          'logger and vice versa: C14_number_files_foreign_ts, C14_ts_files_foreign_number; C14_num_foreign_non_digit). Decided '
          'per explored history by comparing, on the implementation, a run in a directory pre-populated with foreign files (near '
          'misses of the family pattern) with its twin run in a clean directory: every foreign file must still exist with '
@@ -90,9 +93,16 @@ def gen_pair(rng, tier):
     for nm in foreign_names(rng, cfg, naming):
         if rng.random() < 0.12:
             pre.append("XM:%s" % g.hx(nm))
+        elif rng.random() < 0.1:
+            pre.append("XL:%s" % g.hx(nm))      # a symbolic link to a directory elsewhere
         else:
             kind = 1 if nm.endswith(b".gz") else 0
             pre.append("XC:%s:%d:%s" % (g.hx(nm), kind, g.hx(b"foreign " + nm[:6] + b"\n")))
+    if rng.random() < 0.2:
+        # a sub-directory, or a symbolic link to a directory elsewhere, that is NAMED like a file of the family: no regular file,
+        # hence not the logger's
+        fam = cfg.name(b"r00041" if naming.startswith("num") else b"r2031-01-01_00-00-00")
+        pre.append("%s:%s" % (rng.choice(["XM", "XL"]), g.hx(fam)))
     ops = []
     n = 0
     for run in range(rng.randint(1, 2)):
@@ -145,7 +155,7 @@ def snapshots(obs):
 
 
 def foreign_of(body):
-    return [t.split(":")[1] for t in body.split(" ; ", 1)[1].split(" ") if t.startswith("XC:") or t.startswith("XM:")]
+    return [t.split(":")[1] for t in body.split(" ; ", 1)[1].split(" ") if t.startswith("XC:") or t.startswith("XM:") or t.startswith("XL:")]
 
 
 def strip_snap(tok, foreign):
@@ -160,7 +170,7 @@ def oracle_all(cases, model, impl):
     out = {}
     for i in range(0, len(cases) - 1, 2):
         (ida, ba), (idb, bb) = cases[i], cases[i + 1]
-        if not ba.split(" ; ", 1)[1].startswith(("XC:", "XM:")):
+        if not ba.split(" ; ", 1)[1].startswith(("XC:", "XM:", "XL:")):
             out[ida] = out[idb] = "skip not-a-pair"
             continue
         ia, ib = impl.get(ida, ""), impl.get(idb, "")
@@ -200,10 +210,10 @@ def classify(body, impl, verdict):
 
 def nontrivial(body, obs, ghost):
     ops = body.split(" ; ", 1)[1]
-    return ops.startswith(("XC:", "XM:")) and (" Q:" in ops or " T" in ops or "+" in ghost)
+    return ops.startswith(("XC:", "XM:", "XL:")) and (" Q:" in ops or " T" in ops or "+" in ghost)
 
 
 def features(body, obs, ghost):
     toks = body.split(" ; ", 1)[1].split(" ")
     b = next(t for t in toks if t.startswith("B:"))[2:].split(",")
-    return ["naming=" + b[7], "cleanup=" + b[8], "foreign=%d" % sum(t.startswith(("XC:", "XM:")) for t in toks), "queries=%d" % min(4, sum(t.startswith("Q:") for t in toks))]
+    return ["naming=" + b[7], "cleanup=" + b[8], "foreign=%d" % sum(t.startswith(("XC:", "XM:", "XL:")) for t in toks), "queries=%d" % min(4, sum(t.startswith("Q:") for t in toks))]
